@@ -1240,6 +1240,38 @@ fn eliminate_continue(stmts: Vec<Stmt>) -> std::result::Result<Vec<Stmt>, String
             }
             _ => false,
         };
+        // `let PAT = E else { D; continue; }; REST`  =>  `if let PAT = E { REST } else { D }`
+        let is_let_else_continue = match &st {
+            Stmt::Local(l) => match &l.init {
+                Some(LocalInit { diverge: Some((_, d)), .. }) => match &**d {
+                    Expr::Block(b) => matches!(b.block.stmts.last(), Some(Stmt::Expr(Expr::Continue(c), _)) if c.label.is_none()),
+                    _ => false,
+                },
+                _ => false,
+            },
+            _ => false,
+        };
+        if is_let_else_continue {
+            if let Stmt::Local(l) = st {
+                let init = l.init.unwrap();
+                let mut d = match *init.diverge.unwrap().1 {
+                    Expr::Block(b) => b.block,
+                    _ => unreachable!(),
+                };
+                d.stmts.pop();
+                if block_has_continue(&d) {
+                    return Err("unsupported `continue` shape (nested)".into());
+                }
+                let rest: Vec<Stmt> = iter.collect();
+                let rest = eliminate_continue(rest)?;
+                let pat = l.pat;
+                let e = init.expr;
+                let ne: Expr = parse_quote!(if let #pat = #e { #(#rest)* } else #d);
+                out.push(Stmt::Expr(ne, None));
+                return Ok(out);
+            }
+            unreachable!();
+        }
         if is_if_continue {
             if let Stmt::Expr(Expr::If(mut i), _) = st {
                 i.then_branch.stmts.pop();
